@@ -53,6 +53,17 @@ CHECKS["C16"] = ("exploration",
     "unspecified and not judged.",
     "DESIGN.md section 3 / C16")
 
+CHECKS["C18"] = ("exploration",
+    "differential runtime monitor: library frame writer/reader against a reference RFC 6455 codec; reference-encoded client streams cut into reads and fed through the real HTTP channel and handler, delivery log compared",
+    "contracts",
+    "The library's frame writer and reader are compared byte for byte with the monitor's RFC 6455 codec for every opcode, mask flag "
+    "and length around all encoding boundaries (thorough: every length 0..70000). Streams of reference-encoded masked client frames "
+    "are cut into TCP reads (all cut sets for short streams; byte-wise, header/length/mask/payload offsets, several frames per read, "
+    "random cuts otherwise) and fed through the real HTTPFactory channel after a real upgrade request and directly into the handler; "
+    "the endpoint's event log must equal the sent sequence. Exhaustive in length (thorough) and in cut sets of short streams; sampled elsewhere.",
+    "Trusted: the reference codec; twisted's StringTransport. Continuation frames are outside the library's API and not generated.",
+    "DESIGN.md section 3 / C18")
+
 NOT_YET = {}
 
 
